@@ -43,7 +43,7 @@ CHECKS.update({
    note=H_NOTE, ref="DESIGN.md section 4 C05"),
 })
 CHECKS["C10"] = dict(cat="model_checking", engine="S-schedule-dfs", tech="stateless deviation-bounded schedule exploration of the real server + linearizability check against a sequential reference model",
-   text="For 20 (thorough: 23) scenarios of 2-3 sessions issuing colliding commands, every schedule of I/O completions, timers and command arrivals with <=2 (thorough: up to 3) "
+   text="For 28 (thorough: 34) scenarios of 2-3 sessions issuing colliding commands, every schedule of I/O completions, timers and command arrivals with <=2 (thorough: up to 3) "
         "deviations from the default schedule is executed on the real server. Every command must be answered (no deadlock/starvation/watchdog), the results and final mailbox "
         "contents must equal some sequential order of the commands' documented steps, and every session's replayed untagged stream must stay legal while commands overlap.",
    note="Trusted: the virtual loop's notion of an atomic external operation (executor job / DB statement executed and completed at one scheduling point, DB channel FIFO), "
@@ -95,7 +95,7 @@ CHECKS["C18"] = dict(cat="model_checking", engine="H-history-bfs", tech="explici
         "user-process connection, relay bytes, nor return mailbox data; LOGIN / USER+PASS for every (account kind x password variant x encoding) succeed iff usable account and exact password.",
    note="No TLS, sockets or real subprocess; accounts hashed with PBKDF2-SHA1/1 iteration; at exactly 60 s either answer is accepted. Trusted: vf/frontend.py stubs, the reference automaton in vf/props/c18.py.",
    ref="DESIGN.md section 4 C18")
-CHECKS["C19"] = E("C19", "Every sequence of <=2 (thorough: <=3) items from a 13-item menu (plain command, empty line, one/two synchronising literals, non-synchronising literal, literal that looks like a command, "
+CHECKS["C19"] = E("C19", "Every sequence of <=2 (thorough: <=3) items from a 15-item menu (plain command, empty line, one/two synchronising literals, non-synchronising literal, literal that looks like a command, "
    "literal ending in '{5}', over-limit literal sync/non-sync (also with CR LF inside), over-limit line, over-limit accumulated command) is sent to the real front-end reader under every segmentation of a stretch "
    "into reads with <=2 cut points, the scripted client waiting for '+' or BAD as RFC 3501/7888 require; frames relayed, '+' and BAD counts and being in sync afterwards must equal a reference tokenizer's. "
    "Response streams with CRLF-free runs around the 128 KiB stream limit must reach the client byte for byte.",
@@ -107,6 +107,37 @@ CHECKS["C06"] = dict(cat="model_checking", engine="S-schedule-dfs", tech="exhaus
         "scenarios are explored over all schedules with <=1 (thorough 2) deviations.",
    note=E_NOTE, ref="DESIGN.md section 4 C06")
 NOT_YET = {}
+
+# additions made while the checks were strengthened against seeded changes (DESIGN.md section 7, seeded/README.md)
+EXTRA = {
+ "C01": " A second BFS starts from a state where a quiet session holds a pending EXPUNGE; a schedule part runs eight two-session scenarios (re-SELECT, EXPUNGE/MOVE against "
+        "FETCH incl. a slow reader) under every schedule with <=2 (thorough 2-3) deviations and reports the stream rules.",
+ "C02": " A second, deeper BFS runs over a six-event core alphabet (messages go, come, pack, restart); deliveries also go into a mailbox nobody has selected.",
+ "C03": " A deeper BFS over a six-event core alphabet and a schedule part (UID FETCH / FETCH overlapping another session's EXPUNGE / CLOSE, incl. slow readers) complete the check.",
+ "C04": " A second, deeper BFS over a narrow 'toggling' alphabet (one session flips flags while the other stays quiet, polls or looks); \\Recent is checked by three necessary "
+        "conditions (never comes back on the wire or in .mh_sequences, unchanged by STORE).",
+ "C05": " The matrix is repeated from start states in which MH keys and UIDs differ (the former top message expunged before two more arrived).",
+ "C06": " Schedule part: DELETE/RENAME races and commands that do not touch messages (SUBSCRIBE, EXAMINE, CREATE child ...) sent while another session's FETCH is in progress.",
+ "C08": " Every string over {1,7,2,:,*,','} up to length 5 (thorough 6) is put in nine message-set positions and decided by an independent recogniser of the RFC 3501 sequence-set grammar.",
+ "C09": " Names built from the jail's own absolute path and names reaching a sibling whose name starts with the mail directory's name are added; every name runs through two command "
+        "orders (probing first / creating its inside reading first).",
+ "C10": " Scenarios include slow readers (writer.drain() parked), a reader parked mid-FETCH as a start state, re-SELECT races, three sessions; client inputs postponed by one deviation "
+        "stay postponed; every COPYUID destination UID must hold the source's content.",
+ "C11": " Quick tier: 17 histories incl. mailboxes emptied completely, plus every ordered pair of a 9-command alphabet after the client has learnt all UIDs.",
+ "C12": " A second, deeper BFS over an eight-event core alphabet (append, expunge, keywords, RENAME INBOX, DELETE/CREATE of a parent, SUBSCRIBE).",
+ "C13": " Same-second deliveries (folder mtime unchanged) are composite events; a schedule part fires the delivery at every scheduling point inside STORE / FETCH / APPEND / COPY / "
+        "EXPUNGE / NOOP and into the destination of a running COPY / MOVE.",
+ "C14": " The corpus has Date headers that fall on another day in UTC, an empty header field, and empty search strings.",
+ "C16": " A history part evaluates the equations on every state of a depth-4/5 BFS (sizes asked, messages expunged, numbers reused, folder packed); partials are probed beyond the "
+        "item's end and on HEADER/TEXT/parts; a section menu is fetched for every shape.",
+ "C17": " A second, deeper BFS over an eight-event core alphabet; names behind the namespace prefix and names with all-digit components; LSUB attributes and the advertised "
+        "LIST-EXTENDED forms (SUBSCRIBED selection, RETURN SUBSCRIBED/CHILDREN/STATUS) are compared too.",
+ "C18": " 'Current password': the password file is rewritten (changed, disabled, removed, same hash) while the server runs; the old password must then be refused.",
+ "C19": " The menu has 15 items (incl. commands ending directly after a literal whose last octets look like a declaration).",
+ "C20": " A second BFS starts with the POP3 session open over the DELE/RSET/QUIT bookkeeping; a schedule part races QUIT, RETR and TOP against IMAP EXPUNGE / UID FETCH / MOVE / APPEND "
+        "(the POP3 handler's own attributes are part of the canonical state).",
+}
+
 
 def main():
     props = [json.loads(l) for l in open(os.path.join(ROOT, "properties.jsonl"))]
@@ -122,7 +153,7 @@ def main():
                 "evidence_file": f"evidence/{pid}.json",
                 "replay_cmd_template": f"./vcheck {pid} --replay {{path}}",
                 "engine": c["engine"],
-                "level_claimed": {"category": c["cat"], "text": c["text"], "design_ref": c["ref"]},
+                "level_claimed": {"category": c["cat"], "text": c["text"] + EXTRA.get(pid, ""), "design_ref": c["ref"]},
                 "level_note": c["note"],
                 "technique": c["tech"],
             })
